@@ -97,6 +97,38 @@ def matcher(P, E, chk):
         if v is not None and v < 0:
             continue
         nret += 1
+        rx = sk(rexp)
+        if rx.get("k") == "Cond":
+            # `return at_start ? qpos : -1`: the paths on which the condition holds return the second operand
+            arms = [(sk(rx["a"][1]), True), (sk(rx["a"][2]), False)]
+            bad = []
+            rk = pp(rx)
+            # the states on the two edges of the `?:` test (the join in front of the return merges them)
+            edge_ds = {}
+            ck = pp(sk(rx["a"][0]))
+            for cb in f.blocks.values():
+                if cb.term and cb.term.get("kind") == "ConditionalOperator" and cb.term.get("cond") is not None \
+                        and pp(sk(cb.term["cond"])) == ck and ir.loc(cb.term["cond"]) == ir.loc(rx["a"][0]):
+                    edge_ds[True] = [dd for d0 in an.EDGE.get((cb.id, 0), ()) for dd in guard.expand_alts(d0)]
+                    edge_ds[False] = [dd for d0 in an.EDGE.get((cb.id, 1), ()) for dd in guard.expand_alts(d0)]
+            for arm, pol in arms:
+                if cval(arm) is not None and cval(arm) < 0:
+                    continue
+                ak = pp(arm)
+                for d in (edge_ds[pol] if pol in edge_ds else ds):
+                    tv = guard.truth_in(d, rx["a"][0])
+                    if tv is not None and tv != pol:
+                        continue
+                    if not (guard.d_holds(d, "==", ak, 0) or guard.d_holds(d, "==", "%s[%s - 1]" % (qn, ak), ord("."))):
+                        bad.append(d)
+            if bad and sk(rx["a"][0]).get("k") == "Ref":
+                chk.undecided(r3, f, ir.loc(b.elems[i]), "return %s" % rk, "the boundary test reaches this return through the variable %s, "
+                              "whose meaning could not be recovered on every path" % pp(sk(rx["a"][0])))
+                continue
+            chk.site(r3, f, ir.loc(b.elems[i]), "return %s" % rk, not bad,
+                     "at the start of the name or right after a dot" if not bad else
+                     "a match can be reported in the middle of a label")
+            continue
         rk = pp(sk(rexp))
         bad = [d for d in ds if not (guard.d_holds(d, "==", rk, 0) or guard.d_holds(d, "==", "%s[%s - 1]" % (qn, rk), ord(".")))]
         chk.site(r3, f, ir.loc(b.elems[i]), "return %s" % rk, not bad,
@@ -133,7 +165,7 @@ def matcher(P, E, chk):
         chk.site(r3, f, ir.loc(x), "wildcard arm: %s (%s)" % (pp(x)[:30], site[1]), not bad,
                  "%s[%s] tested != '*'" % (qn, site[0]) if not bad else
                  "a character of the label matched by the wildcard is accepted without the star test")
-    if nw < 2:
+    if nw < 1:
         raise AnalysisBroken("C17.R3: wildcard arm sites not found")
     # case folding on both sides
     nf = 0
@@ -146,6 +178,16 @@ def matcher(P, E, chk):
                 both = _folds(l) and _folds(r)
                 chk.site(r3, f, ir.loc(c), pp(c)[:60], both, "both operands case-folded" if both else
                          "characters are compared without folding case on both sides")
+    if nf < 1:
+        # the comparison is written as an inequality with an early return (`if (tolower(a) != tolower(b)) return -1;`)
+        for b in f.blocks.values():
+            if b.term and b.term.get("cond") is not None:
+                c = sk(b.term["cond"])
+                if c.get("k") == "Bin" and c["op"] == "!=" and qn in pp(c) and tn in pp(c) and cval(sk(c["a"][1])) is None:
+                    nf += 1
+                    both = _folds(sk(c["a"][0])) and _folds(sk(c["a"][1]))
+                    chk.site(r3, f, ir.loc(c), pp(c)[:60], both, "both operands case-folded" if both else
+                             "characters are compared without folding case on both sides")
     if nf < 1:
         raise AnalysisBroken("C17.R3: character comparison not found")
 
